@@ -127,6 +127,10 @@ def _c03_trace_clock(body, place, depth=0):
     if depth > 6:
         return None, "copy chain too long"
     defs = _c03_defs(body, place)
+    mproj = re.match(r"^\(?(_\d+)\.\d+: [^()]*\)?$", place)
+    if not defs and mproj:
+        # a field of a local (e.g. the value half of a checked arithmetic result): follow the local
+        return _c03_trace_clock(body, mproj.group(1), depth + 1)
     if len(defs) != 1:
         return (None if not defs else False), "%s is assigned %d times" % (place[:40], len(defs))
     rhs = defs[0].split(" = ", 1)[1]
